@@ -68,17 +68,18 @@ Proof. split; [vm_compute; reflexivity|]. cbn [request_msg m_body]. rewrite app_
 Lemma wf_missing i : wf_message (missing_msg i).
 Proof. split; [vm_compute; reflexivity|]. cbn [missing_msg m_body]. unfold id_bytes. rewrite be_bytes_length. vm_compute. discriminate. Qed.
 
-Section ProtocolProofs.
+Section ProtocolSessionProofs.
   Variable H : bytes -> id.
   Variable zcomp : bytes -> bytes.
   Variable zdecomp : bytes -> option bytes.
   Hypothesis z_roundtrip : forall x, zdecomp (zcomp x) = Some x.
   Hypothesis z_nonempty : forall x, zcomp x <> [].
 
-  Notation serve_loop := (serve_loop H zcomp zdecomp).
+  Notation serve_loop_gen := (serve_loop_gen H zcomp zdecomp).
   Notation request_chunk_reply := (request_chunk_reply H zdecomp).
   Notation client_replies := (client_replies H zdecomp).
   Notation session := (session H zcomp zdecomp).
+  Notation session_prefix := (session_prefix H zcomp zdecomp).
 
   (* a chunk as any store may hand it to the server: it has data d *)
   Definition good_chunk (c : chunk) (d : bytes) : Prop :=
@@ -92,21 +93,21 @@ Section ProtocolProofs.
 
   (* ---------- one step of the server ---------- *)
 
-  Lemma serve_request fuel store i rest :
+  Lemma serve_request sam fuel store i rest :
     wf_id i ->
-    serve_loop (S fuel) store (write_message (request_msg i) ++ rest) =
+    serve_loop_gen sam (S fuel) store (write_message (request_msg i) ++ rest) =
     match store i with
-    | GMissing => write_message (missing_msg i)
+    | GMissing => write_message (missing_msg i) ++ (if sam then [] else serve_loop_gen sam fuel store rest)
     | GFail => []
     | GChunk c =>
         match chunk_data zdecomp c with
         | None => []
         | Some d => write_message (chunk_msg (chunk_id H zdecomp c) CaProtocolChunkCompressed (zcomp d))
-                      ++ serve_loop fuel store rest
+                      ++ serve_loop_gen sam fuel store rest
         end
     end.
   Proof using Type.
-    clear z_roundtrip z_nonempty. intros Hi. cbn [ProtocolSession.serve_loop]. rewrite message_roundtrip by apply wf_request.
+    clear z_roundtrip z_nonempty. intros Hi. cbn [ProtocolSession.serve_loop_gen]. rewrite message_roundtrip by apply wf_request.
     cbn [request_msg m_type m_body]. rewrite N.eqb_refl.
     replace (N.of_nat (length (le64 CaProtocolRequestHighPriority ++ id_bytes i)) <? 40) with false
       by (rewrite app_length, le64_length; unfold id_bytes; rewrite be_bytes_length; reflexivity).
@@ -156,67 +157,115 @@ Section ProtocolProofs.
   Definition present (store : id -> get_result) (data_of : id -> bytes) (i : id) : Prop :=
     wf_id i /\ data_of i <> [] /\ H (data_of i) = i /\
     exists c, store i = GChunk c /\ good_chunk c (data_of i).
+  Definition absent (store : id -> get_result) (i : id) : Prop := wf_id i /\ store i = GMissing.
+  Definition servable store data_of i : Prop := present store data_of i \/ absent store i.
 
   Definition is_data (data_of : id -> bytes) (i : id) (r : chunk_res) : Prop :=
     exists c, r = PData c /\ chunk_data zdecomp c = Some (data_of i).
 
-  (* as long as every requested chunk is present, every reply carries its data *)
-  Lemma session_all_present_gen store data_of ids : forall fuel rest_out,
-    Forall (present store data_of) ids -> (length ids <= fuel)%nat ->
-    Forall2 (is_data data_of) ids
-      (client_replies ids (ProtocolSession.serve_loop H zcomp zdecomp fuel store (client_requests ids) ++ rest_out)).
+  (* the truthful answer: CHUNK with its data for a present chunk, MISSING for a missing one *)
+  Definition answered store data_of (i : id) (r : chunk_res) : Prop :=
+    (present store data_of i /\ is_data data_of i r) \/ (absent store i /\ r = PMissing).
+
+  (* session_truthful, generalised for the induction: whatever follows the server's output *)
+  Lemma session_truthful_gen store data_of ids : forall fuel rest_out,
+    Forall (servable store data_of) ids -> (length ids <= fuel)%nat ->
+    Forall2 (answered store data_of) ids
+      (client_replies ids (serve_loop_gen false fuel store (client_requests ids) ++ rest_out)).
   Proof.
     induction ids as [|i r IH]; intros fuel rest_out F Hf.
     - constructor.
-    - inversion F as [|? ? Hp Fr]; subst. destruct Hp as [Hi [Hd [Hh [c [Es [Ed Hl]]]]]].
+    - inversion F as [|? ? Hs Fr]; subst.
       destruct fuel as [|fuel]; [cbn [length] in Hf; lia|].
-      cbn [client_requests]. rewrite serve_request by exact Hi. rewrite Es, Ed.
-      cbn [ProtocolSession.client_replies]. rewrite <- app_assoc.
-      destruct (reply_chunk i (chunk_id H zdecomp c) (data_of i)
-                  (ProtocolSession.serve_loop H zcomp zdecomp fuel store (client_requests r) ++ rest_out) Hd Hh Hl) as [c' [Er Hc']].
-      rewrite Er. constructor; [exists c'; split; [reflexivity|exact Hc']|]. apply IH; [exact Fr|cbn [length] in Hf; lia].
+      cbn [client_requests ProtocolSession.client_replies].
+      destruct Hs as [Hp|Ha].
+      + pose proof Hp as Hp'. destruct Hp as [Hi [Hd [Hh [c [Es [Ed Hl]]]]]].
+        rewrite serve_request by exact Hi. rewrite Es, Ed. rewrite <- app_assoc.
+        destruct (reply_chunk i (chunk_id H zdecomp c) (data_of i)
+                    (serve_loop_gen false fuel store (client_requests r) ++ rest_out) Hd Hh Hl) as [c' [Er Hc']].
+        rewrite Er. constructor; [left; split; [exact Hp'|exists c'; split; [reflexivity|exact Hc']]|].
+        apply IH; [exact Fr|cbn [length] in Hf; lia].
+      + pose proof Ha as Ha'. destruct Ha as [Hi Em].
+        rewrite serve_request by exact Hi. rewrite Em. rewrite <- app_assoc, reply_missing.
+        constructor; [right; split; [exact Ha'|reflexivity]|].
+        apply IH; [exact Fr|cbn [length] in Hf; lia].
   Qed.
 
-  Lemma session_all_present store data_of ids :
-    Forall (present store data_of) ids -> Forall2 (is_data data_of) ids (session store ids).
+  (* session_truthful: every request of a session is answered CHUNK (with exactly its data)
+     for a present chunk and MISSING for a missing one, in any order and any number *)
+  Lemma session_truthful store data_of ids :
+    Forall (servable store data_of) ids -> Forall2 (answered store data_of) ids (session store ids).
   Proof.
-    intros F. unfold ProtocolSession.session.
-    rewrite <- (app_nil_r (ProtocolSession.serve_loop _ _ _ _ _ _)). apply session_all_present_gen; [exact F|lia].
+    intros F. unfold ProtocolSession.session, session_gen.
+    rewrite <- (app_nil_r (ProtocolSession.serve_loop_gen _ _ _ _ _ _ _)).
+    apply session_truthful_gen; [exact F|lia].
   Qed.
 
-  (* The complete behaviour of one session as the code stands: replies are correct up to and
-     including the first MISSING; the server has then returned from Serve, and every later
-     request on the session -- for a present or for a missing chunk -- fails. *)
-  Lemma session_after_missing store data_of pre m post :
+  (* ... until a store FAILURE ends the session: the failing request and every later one are errors *)
+  Lemma session_until_failure store data_of pre f post :
+    Forall (servable store data_of) pre -> wf_id f -> store f = GFail ->
+    exists rs,
+      session store (pre ++ f :: post) = rs ++ repeat PErr (S (length post)) /\
+      Forall2 (answered store data_of) pre rs.
+  Proof.
+    intros F Hf Ef. unfold ProtocolSession.session, session_gen.
+    assert (forall fuel, (length pre < fuel)%nat ->
+              exists rs, client_replies (pre ++ f :: post)
+                           (serve_loop_gen false fuel store (client_requests (pre ++ f :: post)))
+                         = rs ++ repeat PErr (S (length post)) /\ Forall2 (answered store data_of) pre rs) as Hgen.
+    { induction pre as [|i r IH]; intros fuel Hfu.
+      - destruct fuel as [|fuel]; [lia|]. cbn [app client_requests]. rewrite serve_request by exact Hf. rewrite Ef.
+        exists []. split; [|constructor]. cbn [app]. change (f :: post) with ([f] ++ post).
+        rewrite replies_eof. rewrite app_length. reflexivity.
+      - inversion F as [|? ? Hs Fr]; subst.
+        destruct fuel as [|fuel]; [lia|]. cbn [app client_requests ProtocolSession.client_replies].
+        destruct (IH Fr fuel ltac:(cbn in Hfu; lia)) as [rs [Ers Hrs]].
+        destruct Hs as [Hp|Ha].
+        + pose proof Hp as Hp'. destruct Hp as [Hi [Hd [Hh [c [Es [Ed Hl]]]]]].
+          rewrite serve_request by exact Hi. rewrite Es, Ed.
+          destruct (reply_chunk i (chunk_id H zdecomp c) (data_of i)
+                      (serve_loop_gen false fuel store (client_requests (r ++ f :: post))) Hd Hh Hl) as [c' [Er Hc']].
+          rewrite Er, Ers. exists (PData c' :: rs). split; [reflexivity|].
+          constructor; [left; split; [exact Hp'|exists c'; split; [reflexivity|exact Hc']]|exact Hrs].
+        + pose proof Ha as Ha'. destruct Ha as [Hi Em].
+          rewrite serve_request by exact Hi. rewrite Em, reply_missing, Ers.
+          exists (PMissing :: rs). split; [reflexivity|].
+          constructor; [right; split; [exact Ha'|reflexivity]|exact Hrs]. }
+    apply Hgen. rewrite app_length. cbn. lia.
+  Qed.
+
+  Lemma session_store_failure store i :
+    wf_id i -> store i = GFail -> session store [i] = [PErr].
+  Proof using Type.
+    clear z_roundtrip z_nonempty. intros Hi Ef. unfold ProtocolSession.session, session_gen. cbn [client_requests length].
+    rewrite serve_request by exact Hi. rewrite Ef. reflexivity.
+  Qed.
+
+  (* The code BEFORE fix 9771602: replies are correct up to and including the first MISSING;
+     the server had then returned from Serve, and every later request on the session -- for a
+     present or for a missing chunk -- failed. *)
+  Lemma session_prefix_after_missing store data_of pre m post :
     Forall (present store data_of) pre -> wf_id m -> store m = GMissing ->
     exists rs,
-      session store (pre ++ m :: post) = rs ++ PMissing :: repeat PErr (length post) /\
+      session_prefix store (pre ++ m :: post) = rs ++ PMissing :: repeat PErr (length post) /\
       Forall2 (is_data data_of) pre rs.
   Proof.
-    intros F Hm Em. unfold ProtocolSession.session.
+    intros F Hm Em. unfold ProtocolSession.session_prefix, session_gen.
     assert (forall fuel, (length pre < fuel)%nat ->
               exists rs, client_replies (pre ++ m :: post)
-                           (ProtocolSession.serve_loop H zcomp zdecomp fuel store (client_requests (pre ++ m :: post)))
+                           (serve_loop_gen true fuel store (client_requests (pre ++ m :: post)))
                          = rs ++ PMissing :: repeat PErr (length post) /\ Forall2 (is_data data_of) pre rs) as Hgen.
     { induction pre as [|i r IH]; intros fuel Hf.
       - destruct fuel as [|fuel]; [lia|]. cbn [app client_requests]. rewrite serve_request by exact Hm. rewrite Em.
         exists []. split; [|constructor]. cbn [app ProtocolSession.client_replies].
-        rewrite <- (app_nil_r (write_message (missing_msg m))), reply_missing, replies_eof. reflexivity.
+        rewrite reply_missing, replies_eof. reflexivity.
       - inversion F as [|? ? [Hi [Hd [Hh [c [Es [Ed Hl]]]]]] Fr]; subst.
         destruct fuel as [|fuel]; [lia|]. cbn [app client_requests]. rewrite serve_request by exact Hi. rewrite Es, Ed.
         destruct (IH Fr fuel ltac:(cbn in Hf; lia)) as [rs [Ers Hrs]].
         cbn [ProtocolSession.client_replies].
         destruct (reply_chunk i (chunk_id H zdecomp c) (data_of i)
-                    (ProtocolSession.serve_loop H zcomp zdecomp fuel store (client_requests (r ++ m :: post))) Hd Hh Hl) as [c' [Er Hc']].
+                    (serve_loop_gen true fuel store (client_requests (r ++ m :: post))) Hd Hh Hl) as [c' [Er Hc']].
         rewrite Er, Ers. exists (PData c' :: rs). split; [reflexivity|]. constructor; [exists c'; split; [reflexivity|exact Hc']|exact Hrs]. }
     apply Hgen. rewrite app_length. cbn. lia.
   Qed.
-
-  (* a failing store ends the session without any reply: the client sees an error *)
-  Lemma session_store_failure store i :
-    wf_id i -> store i = GFail -> session store [i] = [PErr].
-  Proof using Type.
-    clear z_roundtrip z_nonempty. intros Hi Ef. unfold ProtocolSession.session. cbn [client_requests length].
-    rewrite serve_request by exact Hi. rewrite Ef. reflexivity.
-  Qed.
-End ProtocolProofs.
+End ProtocolSessionProofs.
